@@ -154,10 +154,18 @@ def groupToPb (g : Group) : PbGroup :=
 
 /-! ### protobuf struct → value -/
 
+/-- `json.Unmarshal(raw, &subTransactions)` (error ignored) seen through `json.Marshal`: absent, empty
+    and `null` give a nil slice; bytes in the modelled `[]UserData` class are decoded and re-rendered
+    (sorted maps, omitted empty fields, strings coerced to valid UTF-8); other bytes are left as they
+    are (the driver answers `unmodelled` for them). -/
 def normSubTx (o : Option Bytes) : Bytes :=
   match o with
   | none => jsonNull
-  | some raw => if raw = [] then jsonNull else raw
+  | some raw =>
+    if raw = [] then jsonNull
+    else match parseSubTx raw with
+      | some l => encSubTx l
+      | none => raw
 
 def pbToTx (p : PbTx) : Outcome Tx :=
   match derefStr 1 1 p.data with
